@@ -9,7 +9,8 @@ from .. import gen
 from ..harness import Clause, Prop, require
 
 CI_METHODS = ["quantile", "bc", "bca"]
-BUILTIN = [("replacement", None), ("replacement", "by_label"), ("single_pass", None),
+SMOOTH = [("replacement+smoothing", None), ("dynamic+smoothing", "by_label")]
+BUILTIN = SMOOTH + [("replacement", None), ("replacement", "by_label"), ("single_pass", None),
            ("single_pass", "by_label"), ("dynamic", None), ("proportion", None)]
 GROUP_BUILTIN = [("replacement", None), ("replacement", "by_label"), ("replacement", "by_group"),
                  ("single_pass", None), ("dynamic", "by_group")]
@@ -40,6 +41,10 @@ def _metric(spec, thr, k):
     if name == "call-matrix":
         f = lambda s, threshold, k: k * s.cm(threshold).matrix  # noqa: E731
         return f, dict(threshold=thr, k=int(k)), lambda o: np.asarray(int(k) * o.cm(thr).matrix)
+    if name == "call-ppv":
+        # undefined (NaN) on samples without a predicted positive at the threshold
+        f = lambda s, threshold: s.cm(threshold).ppv()  # noqa: E731
+        return f, dict(threshold=thr), lambda o: np.asarray(o.cm(thr).ppv())
     if name == "call-mean":
         f = lambda s: np.asarray([s.pos.mean(), s.neg.mean()])  # noqa: E731
         return f, {}, lambda o: np.asarray([o.pos.mean(), o.neg.mean()])
@@ -47,7 +52,7 @@ def _metric(spec, thr, k):
 
 
 SCORE_METRICS = ["tpr", "fnr", "fpr", "tonr", "threshold_at_fnr", "auc", "eer", "call-scalar",
-                 "call-vector", "call-matrix", "call-mean"]
+                 "call-vector", "call-matrix", "call-mean", "call-ppv", "call-ppv"]
 GROUP_METRICS = ["group_fpr", "group_tnr", "group_fnr", "fnr", "call-vector", "call-mean"]
 
 
@@ -135,9 +140,10 @@ def check(case):
 
     # --- 2. built-in sampler: seeded replay by hand
     method, strat = case["builtin"]
-    cfg = BootstrapConfig(nb_samples=nb, sampling_method=method, stratified_sampling=strat,
+    smoothing = method.endswith("+smoothing")
+    cfg = BootstrapConfig(nb_samples=nb, sampling_method=method.split("+")[0], stratified_sampling=strat,
                           ratio=case["ratio"] if method == "proportion" else None,
-                          bootstrap_method=case["ci"])
+                          bootstrap_method=case["ci"], smoothing=smoothing)
     np.random.seed(case["seed"])
     rows_b = o.bootstrap_metric(metric, config=cfg, **kw)
     np.random.seed(case["seed"])
@@ -167,6 +173,27 @@ def check(case):
                 lambda: f"{ctx} ci={case['ci']}: bootstrap_ci {np.asarray(got[1]).tolist()} but formula "
                         f"on the replicates with the original's metric gives {np.asarray(exp[1]).tolist()}")
         require(np.asarray(got[1]).shape == theta_hat.shape + (2,), "bci:shape", f"{ctx}: {np.asarray(got[1]).shape}")
+        # ... and the documented formula itself, re-implemented independently (see C13), applied
+        # to those replicates with the original's metric as the point estimate
+        from .c13 import reference
+
+        R = np.asarray(rows_b, dtype=float).reshape((nb, -1))
+        TH = np.asarray(theta_hat, dtype=float).reshape(-1)
+        G = np.asarray(got[1], dtype=float).reshape((-1, 2))
+        for j in range(R.shape[1]):
+            col = R[:, j].tolist()
+            fin = [x for x in col if x == x]
+            if not fin or TH[j] != TH[j]:
+                continue
+            lo, up, _pole = reference(col, float(TH[j]), case["alpha"], case["ci"])
+            if lo != lo:
+                continue
+            scale = max(1.0, max(abs(x) for x in fin))
+            require(abs(G[j, 0] - lo) <= 1e-9 * scale and abs(G[j, 1] - up) <= 1e-9 * scale,
+                    "bci:not-the-documented-formula",
+                    lambda: f"{ctx} ci={case['ci']} alpha={case['alpha']}: component {j}: bootstrap_ci "
+                            f"{G[j].tolist()} but the documented formula on replicates {col} with estimate "
+                            f"{TH[j]!r} gives [{lo!r}, {up!r}]")
     else:
         require(got == exp, "bci:wiring", f"{ctx}: {got} vs {exp}")
 
@@ -180,6 +207,8 @@ def check(case):
             require(_eq(ci[..., 0], th) and _eq(ci[..., 1], th), "bci:identity",
                     lambda: f"{ctx} ci={cm_}: identity sampler gives {ci.tolist()} for estimate {th.tolist()}")
     labels = [f"metric:{case['metric']}", f"sampler:{method}/{strat}", f"ci:{case['ci']}"]
+    if np.isnan(np.asarray(rows_b, dtype=float)).any():
+        labels.append("nan-replicates")
     return dict(nontrivial=nb >= 2, labels=labels)
 
 
